@@ -348,7 +348,7 @@ pub enum KeyCommand {
     },
     Expire {
         key: Vec<u8>,
-        seconds: u64,
+        seconds: i64,
     },
     PExpire {
         key: Vec<u8>,
@@ -1202,7 +1202,12 @@ impl UnifiedCommandExecutor {
             }
             
             KeyCommand::Expire { key, seconds } => {
-                let result = self.storage.expire(db, &key, Duration::from_secs(seconds))?;
+                // A non-positive lifetime deletes the key at once, as the direct command does
+                let result = if seconds <= 0 {
+                    self.storage.delete(db, &key)?
+                } else {
+                    self.storage.expire(db, &key, Duration::from_secs(seconds as u64))?
+                };
                 Ok(RespFrame::Integer(if result { 1 } else { 0 }))
             }
             
@@ -2725,7 +2730,7 @@ impl CommandParser {
             return Err(FerrousError::Command(CommandError::WrongNumberOfArguments("EXPIRE".into())));
         }
         let key = Self::extract_bytes(&frames[1])?;
-        let seconds = Self::extract_string(&frames[2])?.parse::<u64>()
+        let seconds = Self::extract_string(&frames[2])?.parse::<i64>()
             .map_err(|_| FerrousError::Command(CommandError::InvalidIntegerValue))?;
         Ok(KeyCommand::Expire { key, seconds })
     }
